@@ -690,7 +690,9 @@ class Gen:
 
     def loop(self, scope, depth):
         r = self.rng
-        kind = r.weighted([("count", 4), ("empty", 3), ("obs", 2), ("multi", 6)])
+        kind = r.weighted([("count", 4), ("empty", 3), ("obs", 2), ("multi", 6), ("nestinit", 3 if depth < 2 else 0)])
+        if kind == "nestinit":
+            return self.nested_init_loop(scope, depth)
         if kind == "multi":
             return self.multi_loop(scope, depth)
         g = r.pick(GUARDS)
@@ -759,6 +761,37 @@ class Gen:
             body.append(["bin", nacc, r.pick(["add", "add", "xor", "mul", "sub"]), acc, self.operand(sc)])
         body.append(["bin", ni, "add", i, str(step)])
         return ["while", [[i, i0e, ni], [acc, self.operand(scope), nacc]], body, res], res
+
+    def nested_init_loop(self, scope, depth):
+        """IV-elimination candidate (guard `<`, one dead derived value i*m / i+c feeding another loop
+        variable) whose ONLY other mention of the counter is inside a nested loop: as initial value
+        of an inner loop variable, as its loop value, in the inner guard, or in the inner body."""
+        r = self.rng
+        i, ni, last, j, acc, nacc, cc, res = (self.fresh(x) for x in ("i", "n", "l", "j", "a", "n", "c", "r"))
+        k, nk, s_, ns, c2, r2 = (self.fresh(x) for x in ("k", "n", "s", "n", "c", "r"))
+        i0, trip, step = r.range(-2, 3), r.range(0, 6), r.range(1, 2)
+        bound = i0 + trip * step
+        derived = ["bin", j, "mul", i, str(r.range(1, 4))] if r.chance(1, 2) else ["bin", j, "add", i, str(r.range(-3, 5))]
+        where = r.pick(["init", "init", "loopvalue", "guard", "body", "none"])
+        kinit = i if where == "init" else str(r.range(-2, 2))
+        inner_bound = i if where == "guard" else str(r.range(2, 7))
+        inner_body = [["bin", c2, "ge", k, inner_bound], ["sif", c2, "0", [["brk", s_]]]]
+        if where == "body":
+            inner_body.append(["bin", ns, "add", s_, i])
+        else:
+            inner_body.append(["bin", ns, "add", s_, k])
+        if where == "loopvalue":
+            x = self.fresh("x")
+            inner_body.append(["bin", x, "add", k, "1"])
+            # the inner counter advances by one, a second inner variable takes the OUTER counter as loop value
+            inner = ["while", [[k, kinit, x], [s_, "0", ns], [self.fresh("w"), "0", i]], inner_body, r2]
+        else:
+            inner_body.append(["bin", nk, "add", k, "1"])
+            inner = ["while", [[k, kinit, nk], [s_, "0", ns]], inner_body, r2]
+        t_ = self.fresh("t")
+        body = [["bin", cc, "ge", i, str(bound)], ["sif", cc, "0", [["brk", acc]]], inner,
+                ["bin", t_, "add", acc, last], ["bin", nacc, "add", t_, r2], derived, ["bin", ni, "add", i, str(step)]]
+        return ["while", [[i, str(i0), ni], [last, "0", j], [acc, self.lit(), nacc]], body, res], res
 
     def multi_loop(self, scope, depth):
         """General induction-variable family: k basic IVs with distinct initial values (literals,
@@ -886,7 +919,21 @@ def gen_program(rng, avoid=None):
     return fns
 
 
-def gen_source(rng, avoid):
+def nested_source(r):
+    """outer tail-recursive loop whose body calls a small tail-recursive helper started from the outer
+    counter and a tiny helper computing a derived value: after inlining the helper loop is NESTED in the
+    outer loop and its initial value reads the outer counter (nested loops only arise this way)."""
+    m, b, b2 = r.range(2, 4), r.range(3, 7), r.range(3, 8)
+    start_from = r.pick(["i", "i", "i + 1", "0"])
+    derived = r.pick([f"Main.scale(i)", f"i * {m}", f"i + {m}"])
+    return (f"  function scale(x: int): int = x * {m}\n\n"
+            "  function inner(k: int, m: int, acc: int): int =\n"
+            "    if k >= m { acc } else { Main.inner(k + 1, m, acc + k) }\n\n"
+            "  function outer(i: int, j: int, acc: int): int =\n"
+            f"    if i >= {b} {{ acc }} else {{ Main.outer(i + 1, {derived}, acc + j + Main.inner({start_from}, {b2}, 0)) }}\n")
+
+
+def gen_source(rng, avoid, nested=False):
     """A small samlang module whose tail-recursive functions become `while` loops through the real
     front end (mir_tail_recursion_rewrite): k counters with distinct starts and strides of either
     sign, a guard on one of them (either branch order, all four comparison kinds), derived values
@@ -955,6 +1002,8 @@ def gen_source(rng, avoid):
                     f"{step_print}Main.e0(i + 1, j + 1, n)\n    }} else {{\n      {log}{e}\n    }}\n")
         fns.append(text)
         extra = f"Main.e0({r.pick(['0', '1', 'a', '2'])}, {r.pick(['1', '2', 'b', '3'])}, {r.range(3, 90)})"
+    if nested:
+        fns.append(nested_source(r))
     # run(a, b): distinct, partly symbolic starting values
     lines = []
     for w, (k, gi, gst, lit_bound) in enumerate(wsig):
@@ -968,6 +1017,10 @@ def gen_source(rng, avoid):
         lines.append(f"let r{w} = Main.w{w}({', '.join(starts)}, {barg}{r.range(-2, 2)});")
         lines.append(f"let _ = Process.println(Str.fromInt(r{w}));")
     ret = " + ".join(f"r{w}" for w in range(nw))
+    if nested:
+        lines.append("let y0 = Main.outer(a - a, 0, 0);")
+        lines.append("let _ = Process.println(Str.fromInt(y0));")
+        ret += " + y0"
     if extra:
         lines.append(f"let x0 = {extra};")
         lines.append("let _ = Process.println(Str.fromInt(x0));")
@@ -1009,7 +1062,8 @@ def gen_source_e2e(rng):
         second = ("  function count(i: int, j: int, acc: int): int =\n"
                   f"    if i < {r.range(4, 9)} {{\n      Main.count(i + 1, j + {r.range(2, 6)}, acc + (j * {r.range(2, 4)} + 1))\n    }} else {{ acc }}\n")
         call2 = "    let _ = Process.println(Str.fromInt(Main.count(start, start + 7, 0)));\n"
-    helper = "  function helper(x: int): int = x * 2 + 1\n\n  function boxed(x: int): Str = Str.fromInt(x)\n"
+    helper = "  function helper(x: int): int = x * 2 + 1\n\n  function boxed(x: int): Str = Str.fromInt(x)\n\n" + nested_source(r)
+    call2 += "    let _ = Process.println(Str.fromInt(Main.outer(start, 0, 0)));\n"
     lam = r.pick(["(x0) -> x0 * 2 + k", "(x0) -> x0 + k", "(x0) -> k - x0"])
     gval = r.pick(["Main.helper", "(y0) -> y0 + 1", "(y0) -> Main.helper(y0) - k"])
     main = ("  function main(): unit = {\n    let start = \"0\".toInt();\n    let k = \"7\".toInt();\n"
@@ -1173,6 +1227,8 @@ def classify_prog(pass_, fns, answer):
     if not m:
         return None
     before, after = m.group(2), m.group(3)
+    if "|bad:" in after:
+        return None          # no open finding makes the optimised program ill-formed (dangling names etc.)
     b_trap, a_trap = "|trap" in before, "|trap" in after
     # F2: x/x or x%x (possibly after copy propagation): the removed trap had dividend 0 as well
     if pass_ in ("ccp", "rounds", "all") and re.search(r"\|trap:(div0|rem0):0$", before) and before.split("|")[1] != after.split("|")[1] \
@@ -1535,7 +1591,7 @@ def run(ctx):
     nsrc = ctx.scale(120, 1500) if only in ("", "src") else 0
     scases, src_sample = [], None
     for k in range(nsrc):
-        text = gen_source(rng.fork(), avoid)
+        text = gen_source(rng.fork(), avoid, nested=(k < 4 or k % 5 == 0))     # the first modules always contain the nested family
         src_sample = src_sample or text
         for p in ["ccp", "loop", "cse", "lvn", "dce", "inline"]:
             scases.append((p, 31, text))
